@@ -132,8 +132,9 @@ def invalid_cases(chk):
     # additional keyword values are attached unchanged
     marker = object()
     for name, args in (('round', dict(radius=1)), ('box', dict(width=2, height=1)), ('diamond', dict(width=2, height=1)), ('square', dict(side=1)), ('hexagon', dict(side=1))):
-        p = getattr(Profile, name)(**args, temperature=1234.5, my_value=marker, strain=0)
-        if p.temperature != 1234.5 or p.my_value is not marker or p.strain != 0:
+        extra = dict(temperature=1234.5, my_value=marker, strain=0, t=12.5, length=3.0, x=-1.0, velocity=0.0, material=["a", "b"])
+        p = getattr(Profile, name)(**args, **extra)
+        if any(getattr(p, k) is not v and getattr(p, k) != v for k, v in extra.items()) or p.my_value is not marker:
             return chk.fail('kwargs', f"Profile.{name}: additional keyword values are not attached unchanged", {'factory': name})
     # from_polygon guards
     from shapely.geometry import Polygon
@@ -149,6 +150,48 @@ def invalid_cases(chk):
     p = Profile.from_polygon(good, {'x'}, temperature=5)
     if not p.cross_section.equals(good) or p.temperature != 5:
         return chk.fail('from_polygon', "Profile.from_polygon does not reproduce the given polygon / keyword values", {'polygon': 'rectangle'})
+
+
+def from_groove_cases(chk, rng):
+    """Profile.from_groove: width|filling and height|gap alternatives, requested dimensions, range errors"""
+    from pyroll.core import Profile
+    import grooves_catalogue as GC
+    for name, kw in GC.CATALOGUE:
+        if kw.get('pad_angle', 0) != 0 or name in ('EquivalentRibbedGroove', 'FlatGroove') or 'indent' in kw:
+            continue
+        g = GC.build(name, kw, 1e-3)
+        uw, d = g.usable_width, g.depth
+        fill, gap = rng.choice([0.5, 0.8, 0.95, 1.0]), rng.choice([0.0, 1e-3, 3e-3])
+        variants = [dict(filling=fill, gap=gap), dict(width=fill * uw, gap=gap), dict(filling=fill, height=gap + 2 * d), dict(width=fill * uw, height=gap + 2 * d)]
+        shapes = []
+        for v in variants:
+            chk.cov['evaluations'] += 1
+            data = {'factory': 'from_groove', 'groove': name, 'kwargs': kw, 'args': v}
+            try:
+                p = Profile.from_groove(g, **v, temperature=77.0)
+            except Exception as e:
+                return chk.fail('from_groove-valid-rejected', f"Profile.from_groove({name}, {v}) raised {type(e).__name__}: {e}", data)
+            m = measure(p)
+            if not m['valid'] or abs(m['w'] - fill * uw) > 1e-9 * uw or abs(m['h'] - (gap + 2 * d)) > 1e-9 * max(d, uw) and fill >= 0.95 \
+                    or abs(m['cx']) > 1e-9 * uw or abs(m['cy']) > 1e-9 * uw or p.temperature != 77.0 or set(p.classifiers) != set(g.classifiers):
+                return chk.fail('from_groove-dimensions', f"Profile.from_groove({name}, {v}): {m['w']} x {m['h']}, requested width {fill * uw}, "
+                                f"height {gap + 2 * d} (if filled), valid={m['valid']}", data)
+            shapes.append(p.cross_section)
+        if any(not shapes[0].equals_exact(x, 1e-12 * uw) for x in shapes[1:]):
+            return chk.fail('from_groove-alternatives', f"Profile.from_groove({name}): the alternative size arguments give different shapes", {'groove': name, 'kwargs': kw})
+        bad = [dict(filling=0.9), dict(gap=1e-3), dict(), dict(filling=0.9, width=0.9 * uw, gap=1e-3), dict(filling=0.9, gap=1e-3, height=1e-3 + 2 * d),
+               dict(filling=0, gap=1e-3), dict(filling=-0.5, gap=1e-3), dict(width=0, gap=1e-3), dict(filling=0.9, gap=-1e-3),
+               dict(filling=0.9, height=0), dict(filling=0.9, height=-1.0), dict(filling=0.9, height=d), dict(filling=0.9, height=1.9 * d),
+               dict(width=3 * g.width, gap=1e-3), dict(filling=float('nan'), gap=1e-3)]
+        for v in bad:
+            chk.cov['evaluations'] += 1
+            try:
+                p = Profile.from_groove(g, **v)
+            except Exception:
+                continue
+            m = measure(p)
+            return chk.fail('from_groove-accepted-invalid', f"Profile.from_groove({name}, {v}) did not raise (result {m['w']} x {m['h']}, valid={m['valid']})",
+                            {'factory': 'from_groove', 'groove': name, 'kwargs': kw, 'args': {k: repr(x) for k, x in v.items()}})
 
 
 def kernel_law_k4(chk, rng, n):
@@ -210,6 +253,7 @@ def run(chk):
         translator_validation(chk, rng)
     valid_cases(chk, rng, 200 if not chk.thorough else 3000)
     invalid_cases(chk)
+    from_groove_cases(chk, rng)
     kernel_law_k4(chk, rng, 100 if not chk.thorough else 2000)
     chk.cov['distinct_nontrivial'] += chk.cov['evaluations']
     chk.sample({'factory': 'hexagon', 'args': {'side': 1.0, 'corner_radius': 0.2}})
